@@ -228,11 +228,21 @@ class MediaFile(ModelMixin["MediaFile"], Base):
                 details=f'No such file or directory: {src_name}')
             session.add(err)
             return False
-        with self.blob.open_file(abs_path, start=0, buffer_size=16384) as src:
-            atom = mp4.Wrapper(
-                atom_type='wrap', position=0, size=self.blob.size,
-                parent=None, children=mp4.Mp4Atom.load(src))
-        rep = Representation.load(filename=self.name, atoms=atom.children)
+        try:
+            with self.blob.open_file(abs_path, start=0, buffer_size=16384) as src:
+                atom = mp4.Wrapper(
+                    atom_type='wrap', position=0, size=self.blob.size,
+                    parent=None, children=mp4.Mp4Atom.load(src))
+            rep = Representation.load(filename=self.name, atoms=atom.children)
+        except Exception as parse_err:
+            # a corrupt or truncated file can fail in any of the box parsers
+            logging.warning('Failed to parse %s: %r', src_name, parse_err)
+            err = MediaFileError(
+                media_file=self,
+                reason=ErrorReason.NO_FRAGMENTS,
+                details=f'Failed to parse file: {parse_err!r}')
+            session.add(err)
+            return False
         if not rep.segments:
             err = MediaFileError(
                 media_file=self,
